@@ -23,8 +23,8 @@ impl_io_uring_write!(IoUringWritevSyscall, WritevSyscall,
     writev(fd: c_int, iov: *const iovec, iovcnt: c_int) -> ssize_t
 );
 
-impl_nio_write_iovec!(NioWritevSyscall, WritevSyscall,
-    writev(fd: c_int, iov: *const iovec, iovcnt: c_int,) -> ssize_t
+impl_nio_write!(NioWritevSyscall, WritevSyscall,
+    writev(fd: c_int, iov: *const iovec, iovcnt: c_int) -> ssize_t
 );
 
 impl_raw!(RawWritevSyscall, WritevSyscall,
